@@ -116,4 +116,49 @@ theorem coherent_fetch_ideal_abs (sl : List Nat) (ll : List (Option Nat)) (ops :
       rw [backTrigs_nulfree e.trigs hnul]
       exact mem_sortSet.mpr ((h4 t).mp hm)
 
+theorem unlimited_init (l : Nat) (h : l = 0) : Unlimited (State.init l none) :=
+  ⟨C07.inv_init l none, by simp [State.init, h], rfl⟩
+
+/-- **no spurious miss** (message level): no server has an entry limit, the stores are `WFwire`; if the ideal
+shared cache holds `k` and the entry is not expired on the server's clock, a fetch of `k` by any node —
+whatever its L1 holds, however small the L1 — finds it, with that value and deadline. -/
+theorem live_entry_found_abs (sl : List Nat) (ll : List (Option Nat)) (hsl : ∀ l ∈ sl, l = 0) (ops : List Op)
+    (hlen : ops.length < 2 ^ 64) (hwf : HistWF ops) (c : Nat) (nowC nowS : Time) (k : Key) (tags : Bool) (e' : Entry)
+    (hn : 0 < sl.length) (hid : idealOf ops k = some e') (hlive : ¬ e'.deadline < nowS) :
+    ∃ ts g, (astep (arun (Cluster.init sl ll) ops) (.fetch c nowC nowS k tags)).2 = .hit e'.val ts e'.deadline g := by
+  have hlt : shard sl.length k < sl.length := by
+    unfold shard Gen.hashFinish
+    split
+    · omega
+    · exact Nat.mod_lt _ hn
+  generalize hi : shard sl.length k = i at hlt
+  obtain ⟨lim, hlim⟩ : ∃ lim, sl[i]? = some lim := ⟨sl[i], by simp [hlt]⟩
+  have hl0 : lim = 0 := hsl lim (List.mem_of_getElem? hlim)
+  have hsrv : (arun (Cluster.init sl ll) ops).servers[i]? =
+      some (C07.run (State.init lim none) (ops.filterMap (projOp (Cluster.init sl ll).servers.length i))) := by
+    rw [server_arun, init_servers, hlim]; rfl
+  have hunl := unlimited_init lim hl0
+  have hq : ∀ o ∈ ops.filterMap (projOp (Cluster.init sl ll).servers.length i), o.quiet := by
+    intro o ho
+    obtain ⟨op, _, hop⟩ := List.mem_filterMap.mp ho
+    exact projOp_quiet _ _ op o hop
+  have hex := exact_run hunl.inv hunl.limit hunl.cap _ hq
+  rw [abs_init'] at hex
+  have hlen0 : (Cluster.init sl ll).servers.length = sl.length := by simp [Cluster.init]
+  have hback := relBack_run (Cluster.init sl ll).servers.length i ops hwf (State.init lim none) hunl
+    C07.Spec.empty C07.Spec.empty (by intro k e _ h; simp [C07.Spec.empty] at h)
+  obtain ⟨e, h1, h2, h3, _⟩ := hback k e' (by rw [hlen0]; exact hi) hid
+  rw [← hex] at h1
+  -- the server finds it
+  have hfs := abs_fetch_hit h1 (by rw [h3]; exact hlive)
+  have hcl : (arun (Cluster.init sl ll) ops).servers[shard (arun (Cluster.init sl ll) ops).servers.length k]? =
+      some (C07.run (State.init lim none) (ops.filterMap (projOp (Cluster.init sl ll).servers.length i))) := by
+    rw [arun_length]; rw [hlen0] at hsrv ⊢; rw [hi]; exact hsrv
+  obtain ⟨v', ts', d', g', hhit⟩ := fetchOp_hits (arun (Cluster.init sl ll) ops) c nowC nowS k tags _ hcl hfs
+  have hhit' : (astep (arun (Cluster.init sl ll) ops) (.fetch c nowC nowS k tags)).2 = .hit v' ts' d' g' := hhit
+  obtain ⟨e2, i1, i2, i3, _⟩ := coherent_fetch_ideal_abs sl ll ops hlen hwf c nowC nowS k tags v' ts' d' g' hhit'
+  rw [hid] at i1
+  cases i1
+  exact ⟨ts', g', by rw [hhit', i2, i3]⟩
+
 end Cppcms.C10
